@@ -326,6 +326,32 @@ func c20Misc(r *Run) {
 			}
 			r.violate(key, "policy %q does not parse back to itself: %v", s, err)
 		}
+		// the model renders the policy and re-parses mutated strings (specifiers that print unquoted only)
+		if !strings.ContainsAny(s, "\"\\") {
+			var ks, hs [][]byte
+			r.emit(true, "policy-render", "c20.pol_render", policyToks(p, &ks, &hs), []string{"0", hb([]byte(s))})
+			muts := []string{s, " " + s + " ", strings.ReplaceAll(s, "(", " ( "), strings.ReplaceAll(s, ",", " ,\t"), s + ")", s[:len(s)-1], strings.Replace(s, "(", "((", 1),
+				strings.Replace(s, "0x", "0X", 1), strings.Replace(s, "0x", "", 1), strings.ToUpper(s), strings.Replace(s, "])", ",])", 1), strings.Replace(s, "[", "[,", 1),
+				strings.Replace(s, "(", "(+", 1), strings.Replace(s, "(", "(-", 1), strings.Replace(s, "(", "(0", 1), s + "x", "x" + s}
+			if k := r.rng.IntN(len(s)); true {
+				muts = append(muts, s[:k]+s[k+1:], s[:k]+string("0a(),[]: x"[r.rng.IntN(10)])+s[k:])
+			}
+			for _, m := range muts {
+				if strings.ContainsAny(m, "\"\\") {
+					continue
+				}
+				q, err := types.ParseSpendPolicy(m)
+				want := []string{"1"}
+				if err == nil {
+					qs := q.String()
+					if strings.ContainsAny(qs, "\"\\") {
+						continue
+					}
+					want = []string{"0", hb([]byte(qs))}
+				}
+				r.emit(true, "policy-parse-"+want[0], "c20.pol_parse", []string{hb([]byte(m))}, want)
+			}
+		}
 		js, _ := json.Marshal(p)
 		var pj types.SpendPolicy
 		if err := json.Unmarshal(js, &pj); err != nil || pj.Address() != p.Address() {
